@@ -4,7 +4,7 @@
    equivalent breaks this file (C03, C12: both ports use ONE lock table). *)
 From Coq Require Import String List Bool.
 Import ListNotations.
-From Rend Require Import server.AppWiring gen.App_gen.
+From Rend Require Import server.AppWiring gen.App_gen proto.Resp proto.ReqCommon.
 Open Scope string_scope.
 
 (* the wiring the models assume *)
@@ -46,5 +46,34 @@ Corollary app_unlocked : forall f : flags, f "locked" = false ->
   Forall (fun s => match snd s with Some r => r_lock r = NoLock | None => False end) (started f app_serves_src).
 Proof.
   intros f Hl. rewrite app_wiring_src. unfold app_expected. rewrite Hl.
+  destruct (f "l2enabled"); repeat constructor.
+Qed.
+
+(* ---- protocols, server loop and handler constructors of every started server ---- *)
+Definition app_expected_with (f : flags) :=
+  let h1 := if f "l1inmem" then ("inmem.New", [])
+            else if f "chunked" then ("memcached.Chunked", ["l1sock"])
+            else if f "l1batched" then ("memcached.Batched", ["l1sock"; "batchOpts"])
+            else ("memcached.Regular", ["l1sock"]) in
+  let h2 := if f "l2enabled" then ("memcached.Regular", ["l2sock"]) else ("handlers.NilHandler", []) in
+  let one := (Some ["binprot"; "textprot"], "server.Default", Some h1, Some h2) in
+  one :: (if f "l2enabled" then [one] else []).
+
+Theorem app_handlers_src : forall f : flags, started_with f app_serves_src = app_expected_with f.
+Proof.
+  intros f. unfold started_with, app_serves_src, app_expected_with.
+  cbn [flat_map beval sv_cond sv_protos sv_server sv_h1 sv_h2 pseval heval app].
+  destruct (f "l1inmem"), (f "chunked"), (f "l1batched"), (f "l2enabled"); reflexivity.
+Qed.
+
+(* the protocol list of both ports is the list the first-byte selection of C07 is proved for *)
+Definition proto_of_pkg (s : string) : option proto :=
+  if s =? "binprot" then Some Bin else if s =? "textprot" then Some Text else None.
+
+Corollary app_protocols_src : forall f : flags,
+  Forall (fun x => option_map (map proto_of_pkg) (fst (fst (fst x))) = Some (map Some default_protocols))
+         (started_with f app_serves_src).
+Proof.
+  intros f. rewrite app_handlers_src. unfold app_expected_with.
   destruct (f "l2enabled"); repeat constructor.
 Qed.
